@@ -564,8 +564,8 @@ pub fn run(rep: &Report) {
     );
     rep.assume("type-mismatch detection is exercised with built-in types only; user-defined types are not generated");
     let n = match rep.tier {
-        Tier::Quick => 6_000u64,
-        Tier::Thorough => 300_000u64,
+        Tier::Quick => 40_000u64,
+        Tier::Thorough => 1_000_000u64,
     };
     run_cases(
         rep,
